@@ -2,8 +2,10 @@
    Model: model/Huff.v (jchuff.c jpeg_gen_optimal_table / jpeg_make_c_derived_tbl,
    jdhuff.c jpeg_make_d_derived_tbl / jpeg_huff_decode / HUFF_DECODE look-ahead,
    jpeg_nbits.h).  Generated facts: gen/GenNbits.v, gen/GenStdHuff.v. *)
-From Coq Require Import List ZArith Bool.
-From LJT Require Import model.Huff gen.GenNbits gen.GenStdHuff proofs.NbitsProofs proofs.HuffCodeProofs.
+From Coq Require Import List ZArith Bool Permutation.
+From LJT Require Import model.Huff gen.GenNbits gen.GenStdHuff proofs.NbitsProofs proofs.HuffCodeProofs
+  proofs.HuffGenProofs3 proofs.HuffGenProofs4.
+Import ListNotations.
 Local Open Scope Z_scope.
 
 (* bit-length function: floor(log2 x)+1 for every x >= 1 (unbounded), 0 for 0, and
@@ -55,3 +57,73 @@ Theorem C19_std_tables_accepted :
            end) std_tables = true.
 Proof. exact std_tables_accepted. Qed.
 Print Assumptions C19_std_tables_accepted.
+
+(* ---- the optimal-table generator (jpeg_gen_optimal_table) ----
+   For EVERY histogram with non-negative counts, total below 10^9 and at most 254
+   symbols of non-zero count (images produce at most 226, see design/C19.md):
+   the generator never runs out of fuel and never indexes below bits[0]; it either
+   raises JERR_HUFF_CLEN_OVERFLOW (exactly when an untruncated code length
+   exceeds MAX_CLEN = 32: known finding F15) or returns a table in which every
+   symbol of non-zero count occurs exactly once with a length of 1..16 bits
+   (sum bits = number of such symbols, bits[0] = 0), and whose Kraft sum is
+   2^16 - 2^(16-L): exactly one unused code point of the longest length L, so
+   no code is all ones.  (huffval lists symbols by non-decreasing length by the
+   canonical construction itself.) *)
+Theorem C19_gen_table_valid : forall freq256 : list Z,
+  (forall f, In f freq256 -> 0 <= f) ->
+  sumZ (firstn 256 freq256) + 1 <= SENT ->
+  (length (nz_scan (firstn 256 freq256) 0) <= 254)%nat ->
+  match gen_optimal_table freq256 with
+  | inl ClenOverflow =>
+      exists cs nz, gen_codesizes freq256 = inr (nz, cs) /\ exists c, In c cs /\ c > 32
+  | inl OutOfFuel => False
+  | inl IndexUnderflow => False
+  | inr t =>
+      let bits := h_bits t in
+      let syms := map fst (nz_scan (firstn 256 freq256) 0) in
+      length bits = 17%nat /\ nthZ bits 0 = 0 /\ (forall l, 0 <= nthZ bits l <= 255) /\
+      sumZ (skipn 1 bits) = Z.of_nat (length syms) /\
+      Permutation (h_vals t) syms /\
+      (syms <> [] ->
+         let L := maxlen bits in 1 <= L <= 16 /\ kraft16 bits = 2 ^ 16 - 2 ^ (16 - L))
+  end.
+Proof. exact gen_table_valid. Qed.
+Print Assumptions C19_gen_table_valid.
+
+(* ... and every table it returns is accepted by both table validators, so the
+   inverse theorems above apply to it *)
+Theorem C19_gen_table_accepted : forall freq256 t,
+  (forall f, In f freq256 -> 0 <= f) ->
+  sumZ (firstn 256 freq256) + 1 <= SENT ->
+  (length (nz_scan (firstn 256 freq256) 0) <= 254)%nat ->
+  gen_optimal_table freq256 = inr t ->
+  valid_table t = true /\
+  (exists ct, make_c_derived (h_bits t) (h_vals t) 255 = Some ct) /\
+  (forall isDC, exists dt, make_d_derived (h_bits t) (h_vals t) isDC 255 = Some dt).
+Proof. exact gen_table_accepted. Qed.
+Print Assumptions C19_gen_table_accepted.
+
+(* non-vacuity: a histogram of depth 31 (Fibonacci counts) meets the hypotheses
+   and is limited to 16 bits by the K.2 loop *)
+Theorem C19_gen_nonvacuous :
+  hyps (fibs 31 1 2) /\
+  exists t, gen_optimal_table (fibs 31 1 2) = inr t /\
+            h_bits t = [0; 1; 1; 1; 1; 1; 1; 1; 1; 1; 1; 1; 0; 1; 1; 1; 17].
+Proof. exact gen_table_valid_nonvacuous_deep. Qed.
+Print Assumptions C19_gen_nonvacuous.
+
+(* boundary facts (each a proved witness, so that a moved boundary is noticed):
+   255 equal counts make UINT8 bits[8] wrap 256 -> 0 and the final
+   "while (bits[i] == 0) i--" index below 0; 36 Fibonacci counts exceed MAX_CLEN *)
+Theorem C19_uint8_wrap_boundary :
+  let h := repeat 1 255 in
+  (forall f, In f h -> 0 <= f) /\ sumZ (firstn 256 h) + 1 <= SENT /\
+  length (nz_scan (firstn 256 h) 0) = 255%nat /\
+  gen_optimal_table h = inl IndexUnderflow.
+Proof. exact gen_table_uint8_wrap_sharp. Qed.
+Print Assumptions C19_uint8_wrap_boundary.
+
+Theorem C19_clen_overflow_refuted :
+  hyps (fibs 36 1 2) /\ gen_optimal_table (fibs 36 1 2) = inl ClenOverflow.
+Proof. exact gen_table_deep_boundary. Qed.
+Print Assumptions C19_clen_overflow_refuted.
